@@ -1016,11 +1016,10 @@ class Context:
                 else:
                     # Fallback: return a simple empty function
                     return JSFunction("anonymous", params, bytes(), {})
-            except (TimeLimitError, MemoryLimitError):
+            except JSError:
+                # (a JSSyntaxError becomes a SyntaxError the script can catch)
                 raise
             except Exception as e:
-                from .errors import JSError
-
                 raise JSError(f"SyntaxError: {str(e)}")
 
         fn_constructor = JSCallableObject(function_constructor_fn)
@@ -1167,11 +1166,11 @@ class Context:
                     return vm.run(bytecode_module)
                 finally:
                     ctx._current_vm = outer_vm
-            except (TimeLimitError, MemoryLimitError):
+            except JSError:
+                # Syntax errors, uncaught throws and limit errors of the evaluated
+                # code keep their kind (the calling code can catch the first two)
                 raise
             except Exception as e:
-                from .errors import JSError
-
                 raise JSError(f"EvalError: {str(e)}")
 
         return eval_fn
